@@ -277,6 +277,36 @@ def expand_call_literal(cx, l, depth=0):
     vocabulary). Returns a list of literal lists, or None if f is not such a function."""
     from .pat import subst_params
     from .pg import norm_lit
+    if l[0] == "in" and l[2] == frozenset(["Some"]) and l[1][0] == "call" and l[1][1].rsplit("::", 1)[-1] in ("find", "rfind") and len(l[1][2]) == 2 and l[1][2][1][0] == "closure" and depth <= 1:
+        # `it.find(|x| p(x))` is Some(x): p holds of the element found, `(find(..) as Some).0`
+        from .idioms import closure_returns
+        from .an import subst, walk
+        clos = l[1][2][1]
+        rows = closure_returns(cx.prog, clos[1]) or []
+        caps = dict(clos[2])
+        elem = ("vfield", l[1], "core::option::Option::Some", 0)
+        out = []
+        for r in rows:
+            lits, v = r[0], r[1]
+            m = {}
+            for x in list(walk(v)) + [y for q in lits for y in walk(q[1])]:
+                if x[0] == "upvar" and x[1] in caps:
+                    m[x] = caps[x[1]]
+                elif x[0] == "param" and isinstance(x[1], int) and x[1] == 2:
+                    m[x] = elem
+            plits = [(q[0], subst(q[1], m)) + tuple(q[2:]) for q in lits if q[0] in ("is", "in", "notin")]
+            v2 = subst(v, m)
+            if v2[0] == "bool":
+                if not v2[1]:
+                    continue
+            else:
+                nl = norm_lit(cx.facts, v2, True)
+                if nl == ("const", False):
+                    continue
+                if nl[0] != "const":
+                    plits.append(nl)
+            out.append(plits)
+        return out or None
     if l[0] != "is" or l[1][0] != "call" or depth > 1:
         return None
     path, args = l[1][1], l[1][2]
@@ -534,18 +564,60 @@ def call_args(cx, s):
     return [a.expr_operand(o, s.at) for o in s.data["term"]["args"]]
 
 
-def defining_reads(a, local, depth=0):
+def _one_def(a, local, at):
+    """the single definition of `local` that reaches `at` (all its definitions if at is None); None if several"""
+    ds = a.defs[local]
+    if len(ds) == 1:
+        return ds[0]
+    if at is not None and len(ds) > 1:
+        rd = [d for d in a._reaching(local, at) if d != ("entry",)]
+        if len(rd) == 1:
+            return rd[0]
+    return None
+
+
+def _place_reads(a, pl, at, depth):
+    """read sites feeding the value of a place; looks through tuples / Some(..) built from locals when the place
+    projects back out of them (`let (lo, hi) = helper()?;` after the helper was spliced in)"""
+    if depth > 12:
+        return None
+    proj = [p for p in pl["p"] if not (isinstance(p, dict) and "downcast" in p)]
+    if not proj:
+        return defining_reads(a, pl["l"], depth + 1, at)
+    d = _one_def(a, pl["l"], at)
+    if d is None or d[2] == "call":
+        return [at] if at is not None and d is None else ([(d[0], "term")] if d else None)
+    rv = d[3]
+    here = (d[0], d[1])
+    if "use" in rv:
+        src = rv["use"].get("copy") or rv["use"].get("move")
+        if src is None:
+            return [] if "const" in rv["use"] else None
+        return _place_reads(a, {"l": src["l"], "p": src["p"] + pl["p"]}, here, depth + 1)
+    if rv.get("agg") in ("tuple", "adt") and isinstance(proj[0], dict) and "f" in proj[0] and proj[0]["f"] < len(rv.get("ops", [])):
+        op = rv["ops"][proj[0]["f"]]
+        if "const" in op:
+            return []
+        src = op.get("copy") or op.get("move")
+        if src is None:
+            return None
+        rest = proj[1:]
+        return _place_reads(a, {"l": src["l"], "p": src["p"] + rest}, here, depth + 1)
+    return [here]
+
+
+def defining_reads(a, local, depth=0, at=None):
     """Statements at which the memory reads feeding a local's value happen (through copies, casts and
     arithmetic): [(block, idx)]; None if the value has several definitions somewhere on the way."""
-    if depth > 8:
+    if depth > 12:
         return None
-    ds = a.defs[local]
-    if len(ds) != 1:
+    d = _one_def(a, local, at)
+    if d is None:
         return None
-    d = ds[0]
     if d[2] == "call":
         return [(d[0], "term")]
     rv = d[3]
+    here = (d[0], d[1])
     out = []
     ops = []
     if "use" in rv:
@@ -567,9 +639,12 @@ def defining_reads(a, local, depth=0):
         if pl is None:
             return None
         if pl["p"]:
-            out.append((d[0], d[1]))
+            r = _place_reads(a, pl, here, depth + 1)
+            if r is None:
+                return None
+            out += r
         else:
-            r = defining_reads(a, pl["l"], depth + 1)
+            r = defining_reads(a, pl["l"], depth + 1, here)
             if r is None:
                 return None
             out += r
@@ -580,10 +655,10 @@ def value_read_before(cx, site, arg_index, call_suffix):
     """The value passed as argument `arg_index` at call `site` was read on every path *before* any call
     to `call_suffix` in the same function. Value expressions carry no memory version, so rules that
     depend on 'the old value' check the position of the defining reads here. None = cannot tell."""
-    return operand_read_before(cx, site.fn, site.data["term"]["args"][arg_index], call_suffix)
+    return operand_read_before(cx, site.fn, site.data["term"]["args"][arg_index], call_suffix, at=site.at)
 
 
-def operand_read_before(cx, fn, op, call_suffix, strict=False):
+def operand_read_before(cx, fn, op, call_suffix, strict=False, at=None):
     """Same, for any MIR operand of `fn` (a call argument, the source of a field write).
     strict: no defining read is reachable from a call to `call_suffix` at all."""
     a = cx.prog.A(fn)
@@ -596,7 +671,7 @@ def operand_read_before(cx, fn, op, call_suffix, strict=False):
     def is_call(bi):
         t = fn.body.blocks[bi]["term"]
         return t["k"] == "call" and "const" in t["func"] and "fn" in t["func"]["const"] and strip_generics(t["func"]["const"]["fn"]["path"]).endswith(call_suffix)
-    reads = defining_reads(a, pl["l"])
+    reads = defining_reads(a, pl["l"], 0, at)
     if not reads:
         return None
     if strict:
